@@ -267,6 +267,39 @@ Qed.
 Lemma top_point_not_send' st p : top_point st p -> not_send p.
 Proof. apply top_point_not_send. Qed.
 
+Lemma key_step_facts ms l e evs rp s' :
+  Inv L ms -> Inv L l -> aeq ms l -> step l e = (evs, rp, s') ->
+  exists ms', step ms e = (evs, rp, ms') /\ Inv L ms' /\ Inv L s' /\ aeq ms' s'
+              /\ tr_ok (held_of l) evs (held_of s').
+Proof.
+  intros HIg HIl Haeq Hs.
+  destruct (step_aeq is_action L ms l e Hwf HIg HIl Haeq) as [H1 H2].
+  pose proof (step_inv is_action L ms e Hwf HIg) as Rg. cbn zeta in Rg.
+  pose proof (step_inv is_action L l e Hwf HIl) as Rl. cbn zeta in Rl.
+  rewrite Hs in H1, H2, Rl. cbn [fst snd] in H1, H2, Rl.
+  destruct (step ms e) as [[out rp'] ms'] eqn:Eg. cbn [fst snd] in H1, H2, Rg.
+  inversion H1; subst out rp'. exists ms'. split; [reflexivity|].
+  destruct Rg as [HIg' _]. destruct Rl as [HIl' [T _]].
+  split; [exact HIg'|]. split; [exact HIl'|]. split; [exact H2 | exact T].
+Qed.
+
+Lemma gstep_key ms since held rep arm prev notif e last evs rp ms' wr :
+  step ms e = (evs, rp, ms') ->
+  eff_rep last (mkG ms since false held rep arm prev None notif false false) = gr_of wr ->
+  exists must',
+    fst (gstep (mkG ms since false held rep arm prev None notif false false)
+               (mkT CNextKbd (RKbd (NOne e)) last last))
+    = mkG ms' since false held
+          (match rp with RRNoChange => gr_of wr | _ => None end)
+          (match rp with RRRepeating ks d i => Some (ks, d, i) | _ => None end)
+          (PvKey evs) must' notif false false
+    /\ (evs = [] -> must' = None).
+Proof.
+  intros Hs He. unfold eff_rep in He. cbn [g_arm g_rep] in He.
+  destruct arm as [[[ks0 d0] i0]|]; gsimpl; rewrite Hs; gsimpl; rewrite <- He;
+    (eexists; split; [destruct rp; reflexivity | intros ->; reflexivity]).
+Qed.
+
 Ltac gproj := cbn [g_ms g_since_tab g_tab g_held g_rep g_arm g_prev g_must g_notified g_ended g_erred].
 Ltac gproj_in H := cbn [timer_ok prev_ok held_ok devs_of g_ms g_since_tab g_tab g_held g_rep g_arm g_prev g_must g_notified g_ended g_erred] in H.
 
@@ -423,6 +456,220 @@ Proof.
     destruct E as [rep1 [E Hrep]]. rewrite E.
     eapply coupled_same; [exact HC | gs | ss | exact Hnot | exact I | exact I | reflexivity | ].
     cbn [timer_ok]. rewrite eff_rep_none; [exact Hrep | reflexivity].
-Admitted.
+  - (* kbd_quiet *)
+    subst must. rewrite Ht in Htab. subst tab.
+    destruct HC as [HIg HIl Haeq _ _ _ _ Htabinp _ _ _]. gproj_in HIg. gproj_in Haeq.
+    destruct (key_step_facts ms (l_mapper st) e [] rp s' HIg HIl Haeq Hs) as [ms' [Eg [HIg' [HIl' [Haeq' T]]]]].
+    destruct (gstep_key ms since held rep arm prev notif e last [] rp ms' (l_wr st) Eg Htimer) as [must' [E Hmust]].
+    rewrite E. specialize (Hmust eq_refl). subst must'.
+    assert (Hseteq' : seteq held (held_of s')).
+    { eapply seteq_trans; [exact Hheld|]. exact (proj2 T). }
+    destruct rp; cbn [step_next] in Hnext; destruct Hnext as [-> ->];
+      (constructor; gproj; cbn [l_mapper l_tablet l_wr set_mapper set_wr devs_of];
+       [ exact HIg' | exact HIl' | exact Haeq' | symmetry; exact Ht | reflexivity | reflexivity | exact Hnot
+       | intros Hx; rewrite Ht in Hx; discriminate Hx
+       | cbn [held_ok g_held l_mapper set_mapper set_wr]; exact Hseteq'
+       | cbn [timer_ok]; unfold eff_rep; gproj; reflexivity
+       | reflexivity ]).
+  - (* kbd_out *)
+    subst must. rewrite Ht in Htab. subst tab.
+    destruct HC as [HIg HIl Haeq _ _ _ _ Htabinp _ _ _]. gproj_in HIg. gproj_in Haeq.
+    destruct (key_step_facts ms (l_mapper st) e evs rp s' HIg HIl Haeq Hs) as [ms' [Eg [HIg' [HIl' [Haeq' T]]]]].
+    destruct (gstep_key ms since held rep arm prev notif e last evs rp ms' (l_wr st) Eg Htimer) as [must' [E _]].
+    rewrite E.
+    constructor; gproj; cbn [l_mapper l_tablet l_wr set_mapper devs_of].
+    + exact HIg'.
+    + exact HIl'.
+    + exact Haeq'.
+    + symmetry; exact Ht.
+    + reflexivity.
+    + reflexivity.
+    + exact Hnot.
+    + intros Hx; rewrite Ht in Hx; discriminate Hx.
+    + cbn [held_ok g_held l_mapper set_mapper]. eapply tr_ok_seteq_l; [apply seteq_sym; exact Hheld | exact T].
+    + destruct rp; cbn [timer_ok]; unfold eff_rep; gproj; try split; reflexivity.
+    + reflexivity.
+  - (* step_sent *)
+    assert (E : fst (gstep (mkG ms since tab held rep arm prev must notif false false) (mkT (CSend evs) RUnit last last))
+                = mkG ms since tab (apply_evs held evs) rep arm PvOther None notif false false).
+    { destruct arm as [[[ks0 d0] i0]|]; reflexivity. }
+    rewrite E.
+    destruct HC as [HIg HIl Haeq _ _ _ _ Htabinp _ _ _]. gproj_in HIg. gproj_in Haeq.
+    destruct rp; cbn [step_next] in Hnext; destruct Hnext as [-> ->];
+      (constructor; gproj; cbn [l_mapper l_tablet l_wr set_wr devs_of];
+       [ exact HIg | exact HIl | exact Haeq | exact Htab | reflexivity | reflexivity | exact Hnot | exact Htabinp
+       | cbn [held_ok g_held l_mapper set_wr]; exact (proj2 Hheld)
+       | idtac
+       | reflexivity ]).
+    + cbn [timer_ok]. unfold eff_rep. gproj. destruct Htimer as [-> ->]. reflexivity.
+    + cbn [timer_ok]. unfold eff_rep in *. gproj_in Htimer. gproj. exact Htimer.
+    + cbn [timer_ok g_arm]. exact Htimer.
+  - (* now_step *)
+    subst must.
+    eapply coupled_same; [exact HC | unfold ghost_same; repeat split; reflexivity | ss | exact Hnot | exact I | exact I | reflexivity | ].
+    cbn [timer_ok]. unfold eff_rep. gproj. rewrite Htimer. cbn [l_wr set_wr gr_of].
+    rewrite (instant_add_ms_val _ _ _ Hadd). reflexivity.
+  - (* tab_busy *)
+    subst must. destruct Htimer as [-> Hrep].
+    gsimpl.
+    eapply coupled_same; [exact HC | gs | ss | | exact I | eapply visit_point_not_send; exact Hvis | reflexivity | ].
+    + gproj. intros d0 Hd. apply In_drop_dev in Hd. destruct Hd as [Hd Hne].
+      apply (visit_point_devs _ _ _ Hvis). destruct (Hnot d0 Hd) as [<-|Hin]; [contradiction | exact Hin].
+    + apply (timer_visit last rest st); gproj; [exact Hvis | reflexivity | exact Hrep].
+  - (* tab_quiet *)
+    subst must. destruct Htimer as [-> Hrep].
+    destruct HC as [HIg HIl Haeq _ _ _ _ Htabinp _ _ _]. gproj_in HIg. gproj_in Haeq.
+    pose proof (release_all_inv is_action L (l_mapper st) Hwf HIl) as R. cbn zeta in R. rewrite Hr in R.
+    cbn [fst snd] in R. destruct R as [I' [T' [_ [Hi [_ [Hpa Hmo]]]]]].
+    assert (Hh' : held_of s' = []) by (unfold held_of; rewrite Hpa, Hmo; reflexivity).
+    assert (Hheld0 : held = []).
+    { apply seteq_nil_l. eapply seteq_trans; [exact Hheld|]. exact (proj2 T'). }
+    subst held. gsimpl.
+    constructor; gproj; cbn [l_mapper l_tablet l_wr set_mapper set_wr set_tablet devs_of].
+    + apply Inv_init.
+    + exact I'.
+    + exact (rest_aeq_init L s' Hwf I' Hi).
+    + reflexivity.
+    + reflexivity.
+    + reflexivity.
+    + exact Hnot.
+    + intros _. exact Hi.
+    + cbn [held_ok g_held l_mapper set_mapper]. rewrite Hh'. apply seteq_refl.
+    + cbn [timer_ok g_arm g_rep l_wr set_mapper set_wr]. split; reflexivity.
+    + cbn [prev_ok g_must]. destruct tab; reflexivity.
+  - (* tab_out *)
+    subst must. destruct Htimer as [-> Hrep].
+    pose proof (c_tabinp _ _ _ _ HC) as Htabinp.
+    destruct HC as [HIg HIl Haeq _ _ _ _ _ _ _ _]. gproj_in HIg. gproj_in Haeq.
+    pose proof (release_all_inv is_action L (l_mapper st) Hwf HIl) as R. cbn zeta in R. rewrite Hr in R.
+    cbn [fst snd] in R. destruct R as [I' [T' [_ [Hi [_ [Hpa Hmo]]]]]].
+    assert (Hh' : held_of s' = []) by (unfold held_of; rewrite Hpa, Hmo; reflexivity).
+    assert (Htf : tab = false).
+    { destruct tab; [exfalso | reflexivity]. symmetry in Htab.
+      rewrite (release_all_nil is_action L _ (Htabinp Htab)) in Hr. inversion Hr; subst. apply Hne; reflexivity. }
+    rewrite Htf in *. gsimpl.
+    constructor; gproj; cbn [l_mapper l_tablet l_wr set_mapper set_wr set_tablet devs_of].
+    + apply Inv_init.
+    + exact I'.
+    + exact (rest_aeq_init L s' Hwf I' Hi).
+    + reflexivity.
+    + reflexivity.
+    + reflexivity.
+    + exact Hnot.
+    + intros _. exact Hi.
+    + cbn [held_ok g_held l_mapper set_mapper]. rewrite Hh'. split; [|reflexivity].
+      eapply tr_ok_seteq_l; [apply seteq_sym; exact Hheld | exact T'].
+    + cbn [timer_ok g_arm g_rep l_wr set_mapper set_wr]. split; reflexivity.
+    + cbn [prev_ok g_prev]. exists on. reflexivity.
+  - (* tab_sent *)
+    destruct Htimer as [-> Hrep]. destruct Hheld as [T Hnil].
+    assert (E : fst (gstep (mkG ms since tab held rep None prev must notif false false) (mkT (CSend evs) RUnit last last))
+                = mkG ms since tab (apply_evs held evs) rep None PvOther None notif false false).
+    { reflexivity. }
+    rewrite E.
+    destruct HC as [HIg HIl Haeq _ _ _ _ Htabinp _ _ _]. gproj_in HIg. gproj_in Haeq.
+    constructor; gproj; cbn [devs_of].
+    + exact HIg.
+    + exact HIl.
+    + exact Haeq.
+    + exact Htab.
+    + reflexivity.
+    + reflexivity.
+    + exact Hnot.
+    + exact Htabinp.
+    + cbn [held_ok g_held]. exact (proj2 T).
+    + cbn [timer_ok g_arm g_rep]. split; [reflexivity | exact Hrep].
+    + reflexivity.
+Qed.
+
+(* ---------- the walk ---------- *)
+
+Lemma sim_walk : forall rs p st g last n,
+  coupled last p st g ->
+  gwalk g n (annotate last (fst (run_from p st rs)) rs) = [].
+Proof.
+  induction rs as [|r rs IH]; intros p st g last n HC.
+  - rewrite annotate_nil_r. reflexivity.
+  - destruct (resume p st r) as [p' st'|o] eqn:E.
+    + rewrite (run_from_go _ _ _ _ _ _ _ _ E). cbn [fst]. rewrite annotate_cons.
+      pose proof (sim_step last p st g r p' st' HC (resume_go _ _ _ _ _ _ _ E)) as HC'.
+      destruct (is_clock (pending p)) eqn:Ec.
+      * apply IH. exact HC'.
+      * cbn [LoopMonitors.gwalk].
+        pose proof (quiet last p st g r HC Ec) as Hq.
+        assert (Hlast : (match pending p, r with CNow, RNow t => t | _, _ => last end) = last).
+        { destruct (pending p); try reflexivity; discriminate Ec. }
+        rewrite Hlast in HC'.
+        destruct (gstep g (mkT (pending p) r last last)) as [g' cls]. cbn [fst snd] in *. subst cls.
+        cbn [map app]. apply IH. exact HC'.
+    + rewrite (run_from_stop _ _ _ _ _ _ _ E). cbn [fst]. rewrite annotate_cons, !annotate_nil_l.
+      destruct (is_clock (pending p)) eqn:Ec; [reflexivity|].
+      cbn [LoopMonitors.gwalk].
+      pose proof (quiet last p st g r HC Ec) as Hq.
+      destruct (gstep g (mkT (pending p) r last last)) as [g' cls]. cbn [snd] in Hq. subst cls. reflexivity.
+Qed.
+
+(* the extracted checker never fires on the model's own annotated transcript *)
+Theorem monitor_never_fires rs cs o t0 :
+  run rs = (cs, o) -> check_transcript is_action L tol (annotate t0 cs rs) = [].
+Proof.
+  intros Hrun. unfold check_transcript.
+  pose proof (sim_walk rs PRegister linit ginit t0 0%N (coupled_init t0)) as H.
+  fold (run rs) in H. rewrite Hrun in H. exact H.
+Qed.
 
 End S.
+
+(* ---------- the outcome checker ---------- *)
+
+Section Outcome.
+Variable is_action : key -> bool.
+Variable L : layout.
+
+Notation resume := (Loop.resume is_action L).
+Notation run_from := (Loop.run_from is_action L).
+Notation run := (Loop.run is_action L).
+
+Lemma lgo_resp p st r p' st' :
+  lgo is_action L p st r p' st' -> (forall m, r <> RErr m) /\ is_end r = false.
+Proof. intros H. destruct H; split; try reflexivity; intros m; discriminate. Qed.
+
+Lemma check_outcome_skip e tr o :
+  (forall m, te_resp e <> RErr m) -> is_end (te_resp e) = false ->
+  check_outcome (e :: tr) o = check_outcome tr o.
+Proof.
+  intros H1 H2. unfold check_outcome. cbn [first_err existsb]. rewrite H2. cbn [orb].
+  destruct (te_resp e) eqn:Er; try reflexivity. exfalso. exact (H1 msg eq_refl).
+Qed.
+
+Lemma outcome_ok : forall rs p st last,
+  snd (run_from p st rs) <> Mismatch ->
+  check_outcome (annotate last (fst (run_from p st rs)) rs) (snd (run_from p st rs)) = [].
+Proof.
+  induction rs as [|r rs IH]; intros p st last Hnm.
+  - rewrite annotate_nil_r. reflexivity.
+  - destruct (resume p st r) as [p' st'|o] eqn:E.
+    + rewrite (run_from_go _ _ _ _ _ _ _ _ E) in Hnm |- *. cbn [fst snd] in *. rewrite annotate_cons.
+      destruct (is_clock (pending p)); [apply IH; exact Hnm|].
+      destruct (lgo_resp _ _ _ _ _ (resume_go _ _ _ _ _ _ _ E)) as [H1 H2].
+      rewrite check_outcome_skip; [apply IH; exact Hnm | exact H1 | exact H2].
+    + rewrite (run_from_stop _ _ _ _ _ _ _ E) in Hnm |- *. cbn [fst snd] in *.
+      rewrite annotate_cons, !annotate_nil_l.
+      apply resume_stop in E. destruct E as [p st m Hd | p st r Hw | rest st | rest st | p st r Hw Hr].
+      * destruct (pending p); try discriminate Hd; cbn [is_clock check_outcome first_err te_resp];
+          rewrite N.eqb_refl; reflexivity.
+      * exfalso. apply Hnm. reflexivity.
+      * reflexivity.
+      * reflexivity.
+      * destruct (is_clock (pending p)); [reflexivity|].
+        destruct r as [| |[]| | |]; try contradiction; reflexivity.
+Qed.
+
+Theorem outcome_monitor_never_fires rs cs o t0 :
+  run rs = (cs, o) -> o <> Mismatch -> check_outcome (annotate t0 cs rs) o = [].
+Proof.
+  intros Hrun Hnm. pose proof (outcome_ok rs PRegister linit t0) as H.
+  fold (run rs) in H. rewrite Hrun in H. cbn [fst snd] in H. exact (H Hnm).
+Qed.
+
+End Outcome.
